@@ -7,10 +7,12 @@ verus! {
 //@include prelude/str.rs
 //@include prelude/http.rs
 //@include specs/etag_spec.rs
+//@include prelude/slice.rs
 use stub::*;
 use http::{HeaderMap, HeaderName, HeaderValue};
 use http::header;
 use etag_spec::*;
+use sl::*;
 
 pub mod etag {
     use vstd::prelude::*;
@@ -40,7 +42,7 @@ pub mod etag {
     pub open spec fn opt_bytes(v: Option<HeaderValue>) -> Option<Seq<u8>> { match v { Some(h) => Some(h.bytes@), None => None } }
     pub open spec fn hdr_bytes(h: &HeaderMap, k: HeaderName) -> Option<Seq<u8>> { if h.m@.dom().contains(k) { Some(h.m@[k].bytes@) } else { None } }
 
-    //@fn src/etag.rs :: fn none_match props=C04,C14 implicit=C13 rules=R10,R22
+    //@fn src/etag.rs :: fn none_match props=C04,C14 implicit=C13 rules=R10,R22,STD
     #[verifier::loop_isolation(false)]
     pub fn none_match(etag: &Option<HeaderValue>, req_hdrs: &HeaderMap) -> (r: Option<bool>)
         ensures /*@C04,C14 #none_match_is_weak_list_comparison*/ r == none_match_s(opt_bytes(*etag), hdr_bytes(req_hdrs, HeaderName::IF_NONE_MATCH)),
@@ -49,7 +51,7 @@ pub mod etag {
     //@ after "loop {": proof { lemma_step_shrinks(items.remaining@); }
     //@end
 
-    //@fn src/etag.rs :: fn any_match props=C04,C14 implicit=C13 rules=R10,R22
+    //@fn src/etag.rs :: fn any_match props=C04,C14 implicit=C13 rules=R10,R22,STD
     #[verifier::loop_isolation(false)]
     pub fn any_match(etag: &Option<HeaderValue>, req_hdrs: &HeaderMap) -> (r: Result<bool, &'static str>)
         ensures /*@C04,C14 #any_match_is_strong_list_comparison*/ (match r { Ok(b) => Ok::<bool, ()>(b), Err(_) => Err::<bool, ()>(()) }) == any_match_s(opt_bytes(*etag), hdr_bytes(req_hdrs, HeaderName::IF_MATCH)),
@@ -101,7 +103,7 @@ fn truncate_to_second(t: SystemTime) -> (r: SystemTime)
 //@body
 //@end
 
-//@fn src/serving.rs :: fn parse_modified_hdrs props=C04,C14 implicit=C13 rules=R7,R13
+//@fn src/serving.rs :: fn parse_modified_hdrs props=C04,C14 implicit=C13 rules=R7,R13,STD
 fn parse_modified_hdrs(etag: &Option<HeaderValue>, req_hdrs: &HeaderMap, last_modified: Option<SystemTime>) -> (res: Result<(bool, bool), &'static str>)
     requires last_modified matches Some(m) ==> m.nanos < 1_000_000_000,
     ensures
